@@ -9,6 +9,13 @@
     release <alert>:<ver>           -> <parked…> <groups alert:ver,…> | notparked
     groups                          -> <groups…>
     stress <pairs>                  -> <stale> <total>
+
+  Header `load=1`: no dispatcher until `start` (dispatcher (re)start on a provider that already holds alerts):
+    put … (before start)            -> -
+    start                           -> <parked>                 the initial load parks at its first snapshot alert: ^alert:ver
+    release ^                       -> <parked…> <groups>|loading
+    lstress <n>                     -> <stale> <total>
+  replayed on `AM.Workers.Load` with `concurrent = false` (the snapshot is routed before the workers start).
 -/
 import Driver.Util
 import AM.Model.Workers
@@ -27,6 +34,10 @@ structure St where
   parked : List Upd := []                 -- arrival order at the yield point (= heads of the worker queues)
   last : List (String × Nat) := []        -- last submitted version per alert (spec)
   implGroup : List (String × Nat) := []   -- previous group dump of the implementation
+  load : Bool := false                    -- header `load=1`
+  started : Bool := true                  -- a dispatcher exists
+  snap : List Upd := []                   -- snapshot items the initial load has still to route (head = the parked one, once seen)
+  snapVers : List (String × Nat) := []    -- the snapshot the current dispatcher started from
 
 def St.ownerFn (σ : St) : Nat → Nat := fun f => (σ.owner.lookup f).getD 0
 def St.nameOf (σ : St) (f : Nat) : String := (σ.names.lookup f).getD "?"
@@ -57,11 +68,24 @@ def St.repark (σ : St) : St :=
   let kept := σ.parked.filter fun u => heads.contains u
   { σ with parked := kept ++ heads.filter fun u => !kept.contains u }
 
-/-- publish on the channel; `run` hands it to the owner's queue (`dist`). -/
+/-- publish on the channel; `run` hands it to the owner's queue (`dist`) — unless the dispatcher is still routing
+    its snapshot: then the distributor does not exist yet and the update waits in the subscription channel. -/
 def submit (σ : St) (u : Upd) : St :=
   let m0 : State := { σ.m with chan := σ.m.chan ++ [u] }
-  match AM.Workers.step σ.ownerFn m0 .dist with
-  | some m1 => ({ σ with m := m1 }).repark
+  match Load.step false σ.ownerFn { snap := σ.snap, w := m0 } (.work .dist) with
+  | some L => ({ σ with m := L.w }).repark
+  | none => { σ with m := m0 }
+
+/-- the snapshot has been routed: `run(it)` starts, the distributor empties the subscription channel. -/
+partial def distAll (σ : St) : St :=
+  match Load.step false σ.ownerFn { snap := σ.snap, w := σ.m } (.work .dist) with
+  | some L => distAll { σ with m := L.w }
+  | none => σ.repark
+
+/-- the initial load routes the snapshot alert it is parked at. -/
+def loadOne (σ : St) : St :=
+  match Load.step false σ.ownerFn { snap := σ.snap, w := σ.m } .load with
+  | some L => let σ' := { σ with m := L.w, snap := L.snap }; if L.snap.isEmpty then distAll σ' else σ'
   | none => σ
 
 /-- the worker holding `u` (the owner of its alert) applies it, then receives the next of its queue. -/
@@ -77,42 +101,100 @@ partial def drain (σ : St) : St :=
     if σ'.parked.length < σ.parked.length ∨ σ'.parked.head? ≠ some u then drain σ' else σ'
   | [] => σ
 
-def showParked (σ : St) : String := joinList "," (σ.parked.map σ.key)
+def sortStrs (l : List String) : List String := l.foldl (fun acc e => insStr e acc) []
+
+/-- parked goroutines: the initial load (at the head of the remaining snapshot) and the workers. In `load` cases
+    several workers can reach the yield point in one instant: the list is compared as a set. -/
+def showParked (σ : St) : String :=
+  let ws := σ.parked.map σ.key
+  if σ.load then joinList "," (sortStrs ((match σ.snap.head? with | some u => ["^" ++ σ.key u] | none => []) ++ ws))
+  else joinList "," ws
+
+def normParked (σ : St) (pk : String) : String :=
+  if σ.load then joinList "," (sortStrs (splitList "," pk)) else pk
+
+/-- the snapshot is a map listing: its order is only known when an item shows up parked. -/
+def learnHead (σ : St) (pk : String) : St :=
+  match (splitList "," pk).find? (·.startsWith "^") with
+  | none => σ
+  | some k =>
+    match σ.snap.find? (fun u => "^" ++ σ.key u = k) with
+    | some u => { σ with snap := u :: σ.snap.filter (· ≠ u) }
+    | none => σ
+
+def St.cls (σ : St) (a : String) (stale : Nat) : String :=
+  if σ.load ∧ σ.snapVers.any (fun p => p.1 = a ∧ p.2 = stale) then "initial-load-reorder" else "reorder"
 
 /-- `final_is_last_submitted` / "an older version never overwrites a newer one" on two consecutive group dumps. -/
-def checkMonotone (prev cur : List (String × Nat)) : List Msg :=
+def checkMonotone (σ : St) (prev cur : List (String × Nat)) : List Msg :=
   cur.filterMap fun (a, v) =>
     match prev.lookup a with
-    | some p => if v < p then some (.propfail "final_is_last_submitted" "reorder" s!"alert={a}: version {p} overwritten by older version {v}") else none
+    | some p => if v < p then some (.propfail "final_is_last_submitted" (σ.cls a v) s!"alert={a}: version {p} overwritten by older version {v}") else none
     | none => none
 
 def step (σ : St) (op obs : List String) : St × List Msg :=
   match op, obs with
   | ["put", _now, a, ver, _end], [pk] =>
     let u : Upd := { fp := alertId a, ver := toNat! ver }
+    if !σ.started then
+      -- no dispatcher: the provider stores it, nothing can park
+      ({ σ with last := setKV σ.last a u.ver }, expectEq "put.parked" "-" pk ++ [.tag "load:provider-filled-before-start"])
+    else
+    let loading := !σ.snap.isEmpty
     let σ := submit { σ with last := setKV σ.last a u.ver } u
-    (σ, expectEq "put.parked" (showParked σ) pk ++ (if σ.parked.length ≥ 2 then [.tag "two-updates-in-flight"] else []))
+    (σ, expectEq "put.parked" (showParked σ) (normParked σ pk) ++ (if σ.parked.length ≥ 2 then [.tag "two-updates-in-flight"] else [])
+        ++ (if loading then [.tag (if σ.snapVers.any (·.1 = a) then "load:update-of-snapshot-alert-while-loading" else "load:new-alert-while-loading")] else []))
+  | ["start"], [pk] =>
+    -- a running dispatcher is drained and stopped; the new one starts from what the provider holds
+    let restart := σ.started
+    let snap : List Upd := σ.last.reverse.map fun (a, v) => { fp := alertId a, ver := v }
+    let σ := learnHead { σ with started := true, m := init [] (fun _ => none), parked := [], implGroup := [], snap, snapVers := σ.last } pk
+    let σ := if σ.snap.isEmpty then distAll σ else σ
+    (σ, expectEq "start.parked" (showParked σ) (normParked σ pk) ++ [.tag (if restart then "load:restart" else "load:start")]
+        ++ (if snap.length ≥ 2 then [.tag "load:several-snapshot-alerts"] else []))
+  | ["release", "^"], ["notparked"] =>
+    (σ, expectEq "release" (if σ.snap.isEmpty then "notparked" else "parked") "notparked")
+  | ["release", "^"], [pk, grp] =>
+    if σ.snap.isEmpty then (σ, [.diff "release" "notparked" pk]) else
+    let waiting := σ.m.chan.length
+    let σ' := learnHead (loadOne σ) pk
+    let cur := if grp = "loading" then σ.implGroup else parsePairs grp
+    let mg := if σ'.snap.isEmpty then showPairs σ'.groupPairs else "loading"
+    ({ σ' with implGroup := cur },
+      expectEq "release.parked" (showParked σ') (normParked σ' pk) ++ expectEq "release.groups" mg grp
+      ++ checkMonotone σ σ.implGroup cur ++ [.tag "load:snapshot-alert-routed"]
+      ++ (if σ'.snap.isEmpty ∧ waiting > 0 then [.tag "load:done-with-updates-waiting"] else []))
   | ["release", key], ["notparked"] =>
     let m := if σ.parked.any (fun u => σ.key u = key) then "parked" else "notparked"
     (σ, expectEq "release" m "notparked")
   | ["release", key], [pk, grp] =>
     match σ.parked.find? (fun u => σ.key u = key) with
-    | none => (σ, [.diff "release" "notparked" pk])
+    | none =>
+      -- the implementation released something the model does not have parked: keep watching its group dumps
+      let cur := if grp = "loading" then σ.implGroup else parsePairs grp
+      ({ σ with implGroup := cur }, [.diff "release" "notparked" pk] ++ checkMonotone σ σ.implGroup cur)
     | some it =>
       let older := σ.parked.any fun o => o.fp = it.fp && o.ver < it.ver
       let σ' := apply σ it
-      let cur := parsePairs grp
+      let cur := if grp = "loading" then σ.implGroup else parsePairs grp
       ({ σ' with implGroup := cur },
-        expectEq "release.parked" (showParked σ') pk ++ expectEq "release.groups" (showPairs σ'.groupPairs) grp
-        ++ checkMonotone σ.implGroup cur ++ (if older then [.tag "released-newer-first"] else [.tag "release"]))
+        expectEq "release.parked" (showParked σ') (normParked σ' pk) ++ expectEq "release.groups" (showPairs σ'.groupPairs) grp
+        ++ checkMonotone σ σ.implGroup cur ++ (if older then [.tag "released-newer-first"] else [.tag "release"]))
   | ["groups"], [grp] =>
-    let σ' := drain σ
+    if !σ.started then (σ, expectEq "groups" "loading" grp) else
+    let rec loadRest (σ : St) (n : Nat) : St := match n with
+      | 0 => σ
+      | n + 1 => if σ.snap.isEmpty then σ else loadRest (loadOne σ) n
+    let σ' := drain (loadRest σ σ.snap.length)
     let cur := parsePairs grp
     let pf := σ.last.filterMap fun (a, v) =>
       match cur.lookup a with
-      | some g => if g = v then none else some (Msg.propfail "final_is_last_submitted" "reorder" s!"alert={a}: group holds version {g}, last submitted is {v}")
+      | some g => if g = v then none else some (Msg.propfail "final_is_last_submitted" (σ.cls a g) s!"alert={a}: group holds version {g}, last submitted is {v}")
       | none => some (Msg.propfail "final_is_last_submitted" "lost" s!"alert={a}: no group holds it, last submitted is {v}")
     ({ σ' with implGroup := cur }, expectEq "groups" (showPairs σ'.groupPairs) grp ++ pf ++ [.tag "final:checked"])
+  | ["lstress", _n], [stale, total] =>
+    (σ, (if stale = "0" then [] else [.propfail "final_is_last_submitted" "initial-load-reorder" s!"{stale} of {total} alerts that resolved while the dispatcher was loading them are left firing in their group"])
+        ++ [.tag "lstress:checked"])
   | ["stress", _n], [stale, total] =>
     (σ, (if stale = "0" then [] else [.propfail "final_is_last_submitted" "reorder-stress" s!"{stale} of {total} fire→resolve pairs left the older (firing) version in the group"])
         ++ [.tag "stress:checked"])
@@ -121,7 +203,7 @@ def step (σ : St) (op obs : List String) : St × List Msg :=
 def engine : Engine St where
   init hdr :=
     let ow := parsePairs ((kv hdr "owner").getD "-")
-    { n := kvNat hdr "workers" 2, names := ow.map fun (a, _) => (alertId a, a), owner := ow.map fun (a, w) => (alertId a, w) }
+    { load := kv hdr "load" = some "1", started := kv hdr "load" ≠ some "1", n := kvNat hdr "workers" 2, names := ow.map fun (a, _) => (alertId a, a), owner := ow.map fun (a, w) => (alertId a, w) }
   step := step
 
 end Driver.Workers
